@@ -347,6 +347,11 @@ fn variable_constants(ctx: &Ctx) {
     consts.push("08".into()); // invalid octal: both must be errors
     consts.push("0x".into());
     consts.push("1a".into());
+    // not constants at all: a sign hidden behind the radix prefix, a dangling sign. As expression text
+    // each is a syntax error, so as a variable value it must be an error too (never a fabricated value)
+    for c in ["0x-5", "0X-8", "0x+A", "0x-", "0x+", "0x-0", "0x+0", "0x--1", "0-", "5-", "0x1-", "0x-80000000000000000000000000000000", "0x+7fffffffffffffff", "0X-7FFFFFFFFFFFFFFF"] {
+        consts.push(c.into());
+    }
     let signed: Vec<String> = consts
         .iter()
         .flat_map(|c| [c.clone(), format!("-{c}"), format!("+{c}")])
